@@ -166,7 +166,7 @@ def expected_files(out, series, first=0, applied_before=()):
             exp[conc(p)] = (content(f['cells']), int(f['mode'], 8) if f['mode'] != 'none' else 0o644)
     for b in out['backups']:
         exp['.pc/%s/%s' % (patch_name(b['patch']), conc(b['path']))] = (content(b['cells']),
-                                                                  (int(b['mode'], 8) if b['mode'] != 'none' else None) if b['cells'] else None)
+                                                                  int(b['mode'], 8) if b['mode'] != 'none' else None)
     return exp
 
 
